@@ -273,8 +273,20 @@ def run_objects(case, part):
             ps = tsfmt.instant_of(text)
             inst = ps // tsfmt.PS_PER_US
             y, mo, d, h, mi, s, us = tsfmt.split(inst)
-            for form in ("string", "datetime"):
-                value = text if form == "string" else dt.datetime(y, mo, d, h, mi, s, us, tzinfo=pytz.utc)
+            forms = ["string", "datetime"] + ["stixdatetime:%s-%s" % (pp, cc) for pp in PRECS for cc in CONS]
+            for form in forms:
+                inst = ps // tsfmt.PS_PER_US
+                if form == "string":
+                    value = text
+                elif form == "datetime":
+                    value = dt.datetime(y, mo, d, h, mi, s, us, tzinfo=pytz.utc)
+                else:
+                    # a value that already went through the library once under another precision setting (e.g. taken from another
+                    # object's property): the receiving property's own precision must still be applied
+                    pp, cc = form.split(":")[1].split("-")
+                    import stix2.utils as SU
+                    value = SU.parse_into_datetime(text, precision=pp, precision_constraint=cc)
+                    inst = tsfmt.truncate(inst, pp, cc)
                 kwargs = dict(kw)
                 for pn in props:
                     kwargs[pn] = value
